@@ -115,6 +115,10 @@ def run_api_op(spec):
                 out = {"result": norm(res)}
                 if hasattr(res, "successful"):
                     out["successful"] = bool(res.successful)
+                if hasattr(res, "schedules"):
+                    out["schedules"] = [{"schedule_id": s.schedule_id, "recurring": s.recurring, "days": norm(s.days),
+                                         "start_time": s.start_time, "end_time": s.end_time, "duration": s.duration,
+                                         "display": s.display} for s in res.schedules]
             except Exception as e:  # noqa: BLE001
                 out = exc_name(e)
     finally:
@@ -694,4 +698,106 @@ def o_c13(spec, obs):
             exp = ("Due tomorrow at " + start) if k == 1 else ("Due next %s at %s" % (disp[(wd + k) % 7], start))
     if obs.get("result") != exp:
         return True, "at local %s (%s) with days %s: got %r, earliest run is %r" % (now.strftime("%a %Y-%m-%d %H:%M"), spec["zone"], spec["days"], obs.get("result", obs.get("exception")), exp)
+    return False, "ok"
+
+
+# ------------------------------------------------------------------------------- C10
+def _sched_norm(s):
+    return {"schedule_id": s.schedule_id, "recurring": s.recurring, "days": norm(s.days), "start_time": s.start_time,
+            "end_time": s.end_time, "duration": s.duration, "display": s.display}
+
+
+_orig_run_api_op = run_api_op
+
+
+def run_api_op_sched(spec):
+    out = _orig_run_api_op(spec)
+    return out
+
+
+@kind("c10_roundtrip")
+def k_c10rt(spec):
+    api_mod = importlib.import_module("aioswitcher.api")
+    cr, ls = spec["create"], spec["list"]
+    dev = FakeDevice([bytes.fromhex(r) for r in cr["replies"]])
+
+    async def fake_open_connection(host=None, port=None, **kw):
+        return FakeReader(dev), FakeWriter(dev)
+
+    real_open = api_mod.open_connection
+    api_mod.open_connection = fake_open_connection
+    out = {}
+    try:
+        api = api_mod.SwitcherType1Api("127.0.0.1", cr["dev_id"], cr["key"])
+
+        async def go():
+            await api.connect()
+            await api.create_schedule(*[denorm(a) for a in cr["args"]])
+            frame = dev.frames[1]
+            # the device lists the record back: slot id + the 11 emitted bytes + 8 arbitrary bytes, as scripted
+            listed = bytes.fromhex(ls["replies"][1])
+            reply = listed[:46] + frame[84:95] + listed[57:]
+            dev.replies = dev.replies[:2] + [bytes.fromhex(ls["replies"][0]), reply]
+            dev.nreads = 2
+            r = await api.get_schedules()
+            await api.disconnect()
+            return r
+
+        with Env({"clock": spec.get("clock"), "zone": spec.get("zone")}):
+            try:
+                r = asyncio.run(go())
+                out["schedules"] = [_sched_norm(s) for s in r.schedules]
+            except Exception as e:  # noqa: BLE001
+                out.update(exc_name(e))
+    finally:
+        api_mod.open_connection = real_open
+    out["args"] = cr["args"]
+    return out
+
+
+@oracle("C10")
+def o_c10(spec, obs):
+    import zoneinfo
+    import datetime as dt
+
+    if spec["kind"] == "c10_roundtrip":
+        args = [denorm(a) for a in spec["create"]["args"]]
+        if "exception" in obs:
+            return True, "round trip raised %s" % obs["exception"]
+        if len(obs["schedules"]) != 1:
+            return True, "%d schedules listed" % len(obs["schedules"])
+        s = obs["schedules"][0]
+        want_days = norm(set(args[2]))
+        if (s["start_time"], s["end_time"], s["days"]) != (args[0], args[1], want_days):
+            return True, "created (%s, %s, %s) read back as (%s, %s, %s) in %s" % (args[0], args[1], want_days, s["start_time"], s["end_time"], s["days"], spec["zone"])
+        return False, "ok"
+    reply = bytes.fromhex(spec["replies"][1])
+    data = reply[45:-4]
+    z = zoneinfo.ZoneInfo(spec["zone"])
+    if len(data) % 16:
+        return False, "not whole records (outside C10)"
+    recs = [data[i:i + 16] for i in range(0, len(data), 16)]
+    if "exception" in obs:
+        return True, "whole records raised %s (%s)" % (obs["exception"], obs.get("msg"))
+    got = {s["schedule_id"]: s for s in obs.get("schedules", [])}
+    if len(got) != len(obs.get("schedules", [])):
+        return True, "duplicate ids in the parsed set"
+    if set(got) != {str(r[0]) for r in recs}:
+        return True, "ids %r, records carry %r" % (sorted(got), sorted({str(r[0]) for r in recs}))
+    for sid, s in got.items():
+        ok = False
+        for r in recs:
+            if str(r[0]) != sid:
+                continue
+            mask = r[2]
+            st = dt.datetime.fromtimestamp(int.from_bytes(r[4:8], "little"), z)
+            en = dt.datetime.fromtimestamp(int.from_bytes(r[8:12], "little"), z)
+            days = {"set": sorted(["Days." + n for n, b in DAY_BIT.items() if mask & b], key=repr)}
+            secs = (((en.hour * 60 + en.minute) - (st.hour * 60 + st.minute)) % 1440) * 60
+            exp = {"recurring": mask != 0, "days": days, "start_time": st.strftime("%H:%M"), "end_time": en.strftime("%H:%M"),
+                   "duration": "%d:%02d:00" % (secs // 3600, (secs // 60) % 60)}
+            if all(s[k] == v for k, v in exp.items()):
+                ok = True
+        if not ok:
+            return True, "schedule %s parsed as %r which matches no record with that id" % (sid, s)
     return False, "ok"
